@@ -27,9 +27,10 @@ def poly_inputs(rng, refs, n, max_pairs=30):
             continue
         fam = rng.choice(["ord", "un"])
         lm = gen.random_leaf_map(rng, ot, st)
-        syn, ref = sc.random_syn(rng, fam, ot, rng.randint(1, 3), p_inconsistent=0.05)
+        with_root = fam == "ord" and rng.random() < 0.3     # prescribed root order (a common supersequence)
+        syn, ref = sc.random_syn(rng, fam, ot, rng.randint(1, 3), p_inconsistent=0.0 if with_root else 0.05)
         c = rng.choice(sc.SUPER_COSTS)
-        out.append((fam, sc.sinput(ot, st, lm, c, syn)))
+        out.append((fam, sc.sinput(ot, st, lm, c, syn, tuple(ref) if with_root else ())))
     return out
 
 
